@@ -31,10 +31,12 @@ Theorem ffi_get_table_total : forall prof c name, bytes_ok c -> ffi_get_table pr
 Proof.
   intros prof c name Hb. unfold ffi_get_table.
   destruct (pkg_open prof c) as [k| |] eqn:Eo; try discriminate.
-  - destruct (find_table (k_tabs k) name); [|discriminate].
+  - destruct (find_table (k_tabs k) name) as [t0|]; [|discriminate].
     assert (Hc : k_cont k = c) by (apply (open_clean prof c k Eo)).
     pose proof (pkg_select_total prof k (Sel (JTable name) [] None)) as Ht. rewrite Hc in Ht. specialize (Ht Hb).
-    destruct (pkg_select prof k (Sel (JTable name) [] None)) as [[t rows]| |]; try discriminate; [|contradiction].
-    rewrite ffi_expect_removed. discriminate.
-  - exact (open_total prof c Hb Eo).
+    destruct (pkg_select prof k (Sel (JTable name) [] None)) as [[t1 rows]| |].
+    + discriminate.
+    + rewrite ffi_expect_removed. discriminate.
+    + contradiction.
+  - exfalso. exact (open_total prof c Hb Eo).
 Qed.
